@@ -40,7 +40,20 @@ def glist(items):
 
 
 def gzl(l):
-    return glist(gz(int(x)) for x in l)
+    """Z list literal; long runs of one byte are written (app (repeat x (Z.to_nat n)) rest) so that 16-40 KiB elements stay small"""
+    l = [int(x) for x in l]
+    out, i = 'nil', len(l)
+    while i > 0:
+        j = i
+        while j > 0 and l[j - 1] == l[i - 1]:
+            j -= 1
+        if i - j >= 32:
+            out = '(app (repeat %s (Z.to_nat %d)) %s)' % (gz(l[i - 1]), i - j, out)
+            i = j
+        else:
+            out = '(cons %s %s)' % (gz(l[i - 1]), out)
+            i -= 1
+    return out
 
 
 def gtype(t):
@@ -165,7 +178,7 @@ def to_py(t, v, rng=None):
         if s == 'date':
             return util.Date(v[1])
         if s == 'time':
-            return util.Time(v[1]) if v[1] < DAY_NANOS else v[1]       # Time() itself refuses >= one day
+            return util.Time(v[1]) if 0 <= v[1] < DAY_NANOS else v[1]       # Time() itself refuses anything else
         if s == 'timestamp':
             if TS_MIN <= v[1] <= TS_MAX:
                 return EPOCH + datetime.timedelta(milliseconds=v[1])
@@ -336,7 +349,7 @@ INT_POOL = [0, 1, -1, 2, 127, 128, -128, -129, 255, 256, 32767, 32768, -32768, -
             2 ** 64 - 1, 2 ** 64, -2 ** 64, 2 ** 56 - 1, 2 ** 56, 2 ** 49, 2 ** 7 - 1, 2 ** 14 - 1, 2 ** 14, 2 ** 21, 2 ** 28, 2 ** 35, 2 ** 42]
 CP_POOL = [0, 0x41, 0x7f, 0x80, 0xe9, 0x7ff, 0x800, 0x20ac, 0xd7ff, 0xe000, 0xfffd, 0xffff, 0x10000, 0x1f600, 0x10ffff]
 RANGES = {'bigint': (-2 ** 63, 2 ** 63 - 1), 'int': (-2 ** 31, 2 ** 31 - 1), 'smallint': (-2 ** 15, 2 ** 15 - 1),
-          'tinyint': (-128, 127), 'date': (-2 ** 31, 2 ** 31 - 1), 'time': (-2 ** 63, DAY_NANOS - 1),
+          'tinyint': (-128, 127), 'date': (-2 ** 31, 2 ** 31 - 1), 'time': (0, DAY_NANOS - 1),
           'timestamp': (TS_MIN, TS_MAX), 'double': (0, 2 ** 64 - 1), 'float': (0, 2 ** 32 - 1)}
 
 
